@@ -100,15 +100,12 @@ def abstract_leaves(tree, langs, maxlen, Walker, keep_concrete=()):
             for kw in langs.keywords:
                 if len(kw) <= maxlen.get(kind, 4):
                     E.solver.add(v != z3.StringVal(kw))
-            if kind == 'PropIdentifier' or True:
-                # get / set followed by an identifier are contextual tokens: a separate (known) issue, keep them out of names
-                E.solver.add(v != z3.StringVal('get'), v != z3.StringVal('set'))
         ml = maxlen.get(kind, 4)
         creg = langs._compiled[{'Identifier': 'ID', 'PropIdentifier': 'ID', 'Number': 'NUMBER', 'String': 'STRING', 'Regex': 'REGEX'}[kind]]
         kws = langs.Lexer.keywords_dict
         isid = kind in ('Identifier', 'PropIdentifier')
         sx.LEAF_FILTERS[v.get_id()] = (lambda o, creg=creg, ml=ml, isid=isid: len(o) <= ml and creg.fullmatch(o) is not None and
-                                       not (isid and (o in kws or o in ('get', 'set'))))
+                                       not (isid and o in kws))
         n.value = SZ3Str(v)
         tm = getattr(n, '_token_map', None)
         if tm is not None:
@@ -263,8 +260,9 @@ def unescape_z3(s):
 
 
 def z3_literal(s):
-    """decode the printed form of a z3 string value ("..." with "" for an embedded quote and \\u{..} escapes)"""
+    """decode str() of a z3 string value: the text between one pair of enclosing quotes, embedded quotes as they are
+    (unlike sexpr(), str() does not double them), \\u{..} escapes decoded"""
     s = str(s)
     if len(s) >= 2 and s[0] == '"' and s[-1] == '"':
-        s = s[1:-1].replace('""', '"')
+        s = s[1:-1]
     return unescape_z3(s)
